@@ -1,4 +1,5 @@
-import FV.Props.C11
+import FV.Props.Catalog
+import FV.Ops
 /-! # C13 — a rejected container operation leaves the container as it was (FlatVec / FlatString part) -/
 namespace FV.Props
 open FV
